@@ -76,4 +76,27 @@ theorem merge_matched_is_model (text : Bytes) (items : List MatchRange) :
 /-- the rank a conjunction reports is the one of its FIRST term (`Report.first` in `andMatch`) -/
 theorem rank_from_first_term : AndMerge.rankFrom = 0 := by decide
 
+/-! ### the control flow of `AndEngine::match_item` / `OrEngine::match_item` (property C04: all terms of one alternative) -/
+
+/-- does the translated conjunction report a match, given which of its terms match? -/
+def interpAndVerdict (bs : List Bool) : Bool :=
+  if AndMerge.andStopsOnMiss then bs.all id && !(AndMerge.andEmptyIsNone && bs.isEmpty)
+  else !(AndMerge.andEmptyIsNone && (bs.filter id).isEmpty)
+
+/-- does the translated disjunction report a match, given which of its alternatives match?  (with `is_none` for `is_some` the loop
+    returns the first `None`, and `None` after the loop) -/
+def interpOrVerdict (bs : List Bool) : Bool :=
+  if AndMerge.orReturnsFirstHit then bs.any id else false
+
+/-- a conjunction matches iff it has a term and every term matches (the shape of `andMatch`: `some (some [])` is no match) -/
+theorem and_verdict_is_model (bs : List Bool) : interpAndVerdict bs = (!bs.isEmpty && bs.all id) := by
+  unfold interpAndVerdict
+  simp only [AndMerge.andStopsOnMiss, AndMerge.andEmptyIsNone, if_true, Bool.true_and]
+  cases bs.isEmpty <;> cases bs.all id <;> rfl
+
+/-- a disjunction matches iff some alternative matches (the shape of `orMatch`) -/
+theorem or_verdict_is_model (bs : List Bool) : interpOrVerdict bs = bs.any id := by
+  unfold interpOrVerdict
+  simp only [AndMerge.orReturnsFirstHit, if_true]
+
 end SkimModel.Positions
